@@ -206,6 +206,13 @@ func (fe *FE) calleeCtx(st *State, ci *callInfo) *Ctx {
 		c.params["recv"] = *ci.recv
 	}
 	for n, v := range ci.binds {
+		if ci.fn != nil {
+			for _, fv := range ci.fn.FreeVars {
+				if fv.Name() == n {
+					v = fe.cellVal(v, fv.Type())
+				}
+			}
+		}
 		c.params[n] = v
 	}
 	return c
@@ -248,6 +255,13 @@ func (fe *FE) hookCtxFor(st *State, ci *callInfo, result []Val, taskGhosts map[s
 		h.args = ci.args[1:]
 	}
 	for n, v := range ci.binds {
+		if ci.fn != nil {
+			for _, fv := range ci.fn.FreeVars {
+				if fv.Name() == n {
+					v = fe.cellVal(v, fv.Type())
+				}
+			}
+		}
 		h.binds["b_"+n] = v
 	}
 	for n, v := range taskGhosts {
@@ -780,6 +794,8 @@ func (fe *FE) execNative(st *State, ins ssa.Instruction, callee *ssa.Function, c
 		fe.addOb(st, "lock", "held-at-unlock@"+site, nil, held, "Unlock of a mutex that is not held is a fatal error")
 		fe.ghostArrSet(st, "G_held", m, "false", SBool)
 		return true, true
+	case "sort.SliceStable", "sort.Slice":
+		return true, fe.execSliceStable(st, ins, callee, ci, site)
 	case "(*sync.WaitGroup).Add":
 		w, _ := fe.asRef(ci.args[0])
 		k := fe.intOf(ci.args[1])
@@ -875,7 +891,16 @@ func (fe *FE) execBuiltin(st *State, b *ssa.Builtin, com *ssa.CallCommon, res ss
 			return true
 		}
 	case "append":
-		return fe.execAppend(st, args, com, res, site)
+		ci := &callInfo{args: args, display: []string{"append", "append:" + shortPkgType(res.Type())}}
+		hooks := fe.matchHooks(ci, "call")
+		fe.runHooks(st, hooks, ci, "before", nil, nil, site)
+		ok := fe.execAppend(st, args, com, res, site)
+		if ok && len(hooks) > 0 {
+			for _, f := range append([]*State{st}, fe.pendingFork...) {
+				fe.runHooks(f, hooks, ci, "after", []Val{f.vals[res]}, nil, site)
+			}
+		}
+		return ok
 	case "delete":
 		m := args[0]
 		mt := com.Args[0].Type().Underlying().(*types.Map)
@@ -1109,6 +1134,11 @@ func (fe *FE) execRange(st *State, x *ssa.Range) bool {
 	vis := "$visited_" + x.Name()
 	st.ghosts[vis] = scalar("((as const (Array "+ks+" Bool)) false)", "(Array "+ks+" Bool)", nil)
 	st.ghosts["visited"] = st.ghosts[vis]
+	st.ghosts["itercount"] = scalar("0", SInt, types.Typ[types.Int])
+	if m.T != "0" {
+		db, _, _ := mapBases(mt)
+		st.ghosts["$iterdom_"+x.Name()] = scalar(sel(fe.heapTerm(st, db, arraySort([]string{SInt, ks}, SBool)), m.T), "(Array "+ks+" Bool)", nil)
+	}
 	st.vals[x] = Val{Kind: VIter, IterMap: m.T, IterVis: vis, IterKT: mt.Key(), IterVT: mt.Elem(), IterID: id, GoT: x.X.Type()}
 	return true
 }
@@ -1127,8 +1157,25 @@ func (fe *FE) execNext(st *State, x *ssa.Next, b *ssa.BasicBlock) bool {
 	if it.IterMap == "0" {
 		dom = "((as const (Array " + ks + " Bool)) false)"
 	}
+	if d0, ok := st.ghosts["$iterdom_"+x.Iter.Name()]; ok {
+		fe.addOb(st, "range", "map-unmodified@"+x.Iter.Name(), nil, eq(dom, d0.T), "the key set of a map is not changed while it is being ranged over (needed for: the loop body runs exactly len(m) times)")
+	}
 	okT := fe.newConst(st, "next_ok", SBool)
 	k := fe.newConst(st, "next_key", ks)
+	{
+		// Go semantics (assumed): a range over an unmodified map yields each key exactly once, i.e. len(m) keys
+		_, _, lb := mapBases(mt)
+		cnt := st.ghosts["itercount"]
+		ln := "0"
+		if it.IterMap != "0" {
+			ln = ite(eq(it.IterMap, "0"), "0", sel(fe.heapTerm(st, lb, arraySort([]string{SInt}, SInt)), it.IterMap))
+		}
+		st.assume(implies(not(okT), eq(cnt.T, ln)))
+		st.assume(implies(okT, "(< "+cnt.T+" "+ln+")"))
+		nc := fe.newConst(st, "itercount", SInt)
+		st.assume(eq(nc, ite(okT, "(+ "+cnt.T+" 1)", cnt.T)))
+		st.ghosts["itercount"] = scalar(nc, SInt, types.Typ[types.Int])
+	}
 	// ok <=> some key of dom is unvisited; then k is such a key
 	st.assume(implies(okT, and(sel(dom, k), not(sel(vis.T, k)))))
 	st.assume(implies(not(okT), fmt.Sprintf("(forall ((q %s)) (! (=> (select %s q) (select %s q)) :pattern ((select %s q))))", ks, dom, vis.T, dom)))
@@ -1152,5 +1199,110 @@ func (fe *FE) execNext(st *State, x *ssa.Next, b *ssa.BasicBlock) bool {
 		v = fe.zeroVal(mt.Elem())
 	}
 	st.vals[x] = Val{Kind: VTuple, Elems: []Val{scalar(okT, SBool, types.Typ[types.Bool]), scalar(k, ks, mt.Key()), v}, GoT: x.Type()}
+	return true
+}
+
+// execSliceStable: sort.SliceStable(x, less) with `less` a closure whose contract has a `returns` expression.
+// Assumed semantics (extern, listed in the trusted base): the elements of x are permuted in place,
+// afterwards no later element is less than an earlier one, and elements that compare equal keep
+// their relative order. The permutation is exposed to contracts as ghost arrays perm / iperm
+// (new[i] == old[perm[i]]).
+func (fe *FE) execSliceStable(st *State, ins ssa.Instruction, callee *ssa.Function, ci *callInfo, site string) bool {
+	fe.usedExt["extern sort.SliceStable (native model: in-place stable permutation sorted w.r.t. the inlined less closure)"] = true
+	call, ok := ins.(ssa.CallInstruction)
+	if !ok {
+		fe.errorf("SliceStable: not a call")
+		return false
+	}
+	com := call.Common()
+	mi, ok := com.Args[0].(*ssa.MakeInterface)
+	if !ok {
+		fe.errorf("SliceStable: first argument is not a direct slice")
+		return false
+	}
+	sl := fe.valOf(st, mi.X)
+	if sl.Kind != VSlice {
+		fe.errorf("SliceStable: first argument is not a slice: %v", sl)
+		return false
+	}
+	cl := fe.valOf(st, com.Args[1])
+	if cl.Kind != VClosure {
+		fe.errorf("SliceStable: less is not a closure")
+		return false
+	}
+	con := fe.V.contractFor(cl.Fn)
+	if con == nil || con.Returns == nil {
+		fe.errorf("SliceStable: closure %s has no contract with a `returns` expression", cl.Fn.Name())
+		fe.addStaticFailure("no-contract", sanitize(cl.Fn.Name()), "less closure has no `returns` contract")
+		return true
+	}
+	et := mi.X.Type().Underlying().(*types.Slice).Elem()
+	comps := fe.components(et)
+	if len(comps) != 1 {
+		fe.errorf("SliceStable: unsupported element type %s", et)
+		return false
+	}
+	lessAt := func(a, b string) string {
+		lci := &callInfo{fn: cl.Fn, binds: map[string]Val{}}
+		for i, fv := range cl.Fn.FreeVars {
+			if i < len(cl.Binds) {
+				lci.binds[fv.Name()] = cl.Binds[i]
+			}
+		}
+		lci.names = []string{cl.Fn.Params[0].Name(), cl.Fn.Params[1].Name()}
+		lci.args = []Val{scalar(a, SInt, types.Typ[types.Int]), scalar(b, SInt, types.Typ[types.Int])}
+		cc := fe.calleeCtx(st, lci)
+		cc.qdepth = 1
+		cc.what = "less closure"
+		return cc.boolTerm(cc.eval(con.Returns))
+	}
+	n := sl.Len
+	// closure preconditions hold for all index pairs
+	{
+		lci := &callInfo{fn: cl.Fn, binds: map[string]Val{}}
+		for i, fv := range cl.Fn.FreeVars {
+			if i < len(cl.Binds) {
+				lci.binds[fv.Name()] = cl.Binds[i]
+			}
+		}
+		lci.names = []string{cl.Fn.Params[0].Name(), cl.Fn.Params[1].Name()}
+		lci.args = []Val{scalar("q_a", SInt, types.Typ[types.Int]), scalar("q_b", SInt, types.Typ[types.Int])}
+		cc := fe.calleeCtx(st, lci)
+		cc.qdepth = 1
+		for i, r := range con.Requires {
+			cc.what = "less requires"
+			t := cc.boolTerm(cc.eval(r.E))
+			fe.addOb(st, "call-pre", fmt.Sprintf("less.%s@%s", clauseLabel(r, i), site), nil,
+				fmt.Sprintf("(forall ((q_a Int) (q_b Int)) (=> (and (<= 0 q_a) (< q_a %s) (<= 0 q_b) (< q_b %s)) %s))", n, n, t), r.Src)
+		}
+	}
+	name := elemBase(et)
+	sortA := arraySort([]string{SInt, SInt}, comps[0].sort)
+	h := fe.heapTerm(st, name, sortA)
+	oldRow := "(select " + h + " " + sl.Arr + ")"
+	newRow := fe.newConst(st, "sortedrow", "(Array Int "+comps[0].sort+")")
+	pi := fe.newConst(st, "perm", "(Array Int Int)")
+	ipi := fe.newConst(st, "iperm", "(Array Int Int)")
+	nh := fe.newConst(st, name, sortA)
+	st.assume(eq(nh, "(store "+h+" "+sl.Arr+" "+newRow+")"))
+	st.heap[name] = nh
+	off := sl.Off
+	at := func(i string) string {
+		if off == "0" {
+			return i
+		}
+		return "(+ " + off + " " + i + ")"
+	}
+	st.assume(fmt.Sprintf("(forall ((i Int)) (! (=> (and (<= 0 i) (< i %s)) (and (<= 0 (select %s i)) (< (select %s i) %s) (= (select %s %s) (select %s %s)) (= (select %s (select %s i)) i))) :pattern ((select %s i)) :pattern ((select %s %s))))",
+		n, pi, pi, n, newRow, at("i"), oldRow, at("(select "+pi+" i)"), ipi, pi, pi, newRow, at("i")))
+	st.assume(fmt.Sprintf("(forall ((j Int)) (! (=> (and (<= 0 j) (< j %s)) (and (<= 0 (select %s j)) (< (select %s j) %s) (= (select %s (select %s j)) j))) :pattern ((select %s j))))",
+		n, ipi, ipi, n, pi, ipi, ipi))
+	st.assume(fmt.Sprintf("(forall ((k Int)) (! (=> (or (< k %s) (>= k (+ %s %s))) (= (select %s k) (select %s k))) :pattern ((select %s k))))", off, off, n, newRow, oldRow, newRow))
+	st.assume(fmt.Sprintf("(forall ((q_i Int) (q_j Int)) (=> (and (<= 0 q_i) (< q_i q_j) (< q_j %s)) (not %s)))", n, lessAt("q_j", "q_i")))
+	st.assume(fmt.Sprintf("(forall ((q_i Int) (q_j Int)) (=> (and (<= 0 q_i) (< q_i q_j) (< q_j %s) (not %s)) (< (select %s q_i) (select %s q_j))))", n, lessAt("q_i", "q_j"), pi, pi))
+	st.ghosts["perm"] = scalar(pi, "(Array Int Int)", nil)
+	st.ghosts["iperm"] = scalar(ipi, "(Array Int Int)", nil)
+	hooks := fe.matchHooks(ci, "call")
+	fe.runHooks(st, hooks, ci, "after", nil, nil, site)
 	return true
 }
